@@ -297,6 +297,10 @@ def c02_shapes(tier):
         shapes.append(('hx_pa', [6, 32 << 8], lab('c02/cfg6 multi-value', words), {'pa_tmpl': tmpl('throw', [], slots, words)}))
     for words, slots in ((['-b', S(0) + ',-' + S(1)], ['r1:0:7', 'r1:1:9']), (['--bits=-' + S(0)], ['r1:1:9']), (['-b-' + S(0)], ['r1:1:9']), (['-b', S(0)], ['r2:10:99']), (['-b', '18446744073709551615'], []), (['-b', '4294967296'], [])):
         shapes.append(('hx_pa', [6, 0], lab('c02/bitset position', words), {'pa_tmpl': tmpl('throw', [], slots, words)}))
+    # a mandatory argument that opens a sub-group: missing -> reported, present -> fine
+    for m in (0, 2):
+        shapes.append(('hx_pa_subgroup', [m, 7], 'c02/subgroup/mandatory%d/missing' % (m >> 1)))
+    shapes.append(('hx_pa_subgroup', [2, 2], 'c02/subgroup/mandatory1/present'))
     # tuple destination: cardinality is exactly the number of elements (checked at the end of the evaluation)
     for words, slots in ((['-t', S(0)], ['d2']), (['-t', S(0) + ',' + S(1)], ['d1', 'd2']), (['--tuple=' + S(0) + ',' + S(1), '-f'], ['d2', 'd2']), (['-t', S(0) + ',' + S(1) + ',' + S(2) + ',' + S(3)], ['d1', 'd1', 'd1', 'd1']),
                          (['-t', S(0) + ',' + S(1) + ',' + S(2), '-t', S(3)], ['d1', 'd1', 'd1', 'd1'])):
@@ -426,6 +430,7 @@ def c05_shapes(tier):
             shapes.append(('hx_pa_subgroup', [noabbr, line], 'c05/subgroup/noabbr%d/line%d' % (noabbr, line)))
     for mode in range(9):
         shapes.append(('hx_pa_subgroup_dup', [mode, 0], 'c05/subgroup key clash/mode%d' % mode))
+    shapes.append(('hx_pa_subgroup', [2, 0], 'c05/subgroup/mandatory/line0'))
     # consecutive long keys where the second is a prefix of the first one (and the other way round)
     for perm in (0, 3, 5):
         for words, items in ((['--in-file', S(0), '--in', S(1)], ['m=#0', 'n=#1']), (['--in-dir=' + S(0), '--in', S(1), '--in-file', S(2)], ['l=#0', 'n=#1', 'm=#2']), (['--output', S(0), '--in', S(1), '--in-d', S(2)], ['u=#0', 'n=#1', 'l=#2'])):
